@@ -5,6 +5,8 @@
 //!
 //! case: (c17 async|sync VIA (CONSUMER ...) (r|p ...) (STEP ...))      VIA = bundles | loc
 //!   CONSUMER = (v d) | (vs d ...) | (ms d ...)   format_value / format_values / format_messages with keys
+//!              (a key written (e d) / (g d) is message e<d> / g<d>: present from bundle d on, but its value
+//!              references a missing variable / an unknown message, so it formats WITH a resolver error)
 //!              m<d>; bundle i (locale #i, text "b<i>") has the messages m0..m<i>, so key m<d> is first
 //!              answered by bundle d
 //!   script:  r = the source's next poll is Ready(Some(bundle)); p = Pending, the source keeps ONLY the
@@ -63,6 +65,9 @@ fn make_bundle(i: usize) -> FluentBundleResult<FluentResource> {
     let mut src = String::new();
     for j in 0..=i {
         src.push_str(&format!("m{} = b{}\n", j, i));
+        // present, but the value formats WITH a resolver error: missing variable / unknown message reference
+        src.push_str(&format!("e{} = b{}{{ $nope }}\n", j, i));
+        src.push_str(&format!("g{} = b{}{{ nope }}\n", j, i));
     }
     let res = FluentResource::try_new(src).expect("HARNESS: ftl");
     let mut bundle = FluentBundle::new(vec![locale_of(i)]);
@@ -140,7 +145,12 @@ impl Wake for Flag {
 }
 
 fn text_index(s: &str) -> Sexp {
-    match s.strip_prefix('b').and_then(|t| t.parse::<i64>().ok()) {
+    // "b<i>" for a clean value, "b<i>{$nope}" / "b<i>{nope}" for one formatted with a resolver error
+    let digits = |t: &str| -> String { t.chars().take_while(|c| c.is_ascii_digit()).collect() };
+    match s.strip_prefix('b').map(digits).filter(|d| {
+        let rest = &s[1 + d.len()..];
+        !d.is_empty() && (rest.is_empty() || rest == "{$nope}" || rest == "{nope}")
+    }).and_then(|d| d.parse::<i64>().ok()) {
         Some(i) => list(vec![sym("some"), int(i)]),
         None => list(vec![sym("UNEXPECTED-TEXT"), Sexp::A(s.as_bytes().to_vec())]),
     }
@@ -185,11 +195,18 @@ fn dec_reqs(x: &Sexp) -> Vec<Req> {
                 "ms" => Api::Ms,
                 _ => panic!("HARNESS: api"),
             };
-            let depths: Vec<usize> = l[1..].iter().map(|d| d.as_int() as usize).collect();
+            // key = d (message m<d>, clean) | (e d) (e<d>: missing variable) | (g d) (g<d>: unknown message reference)
+            let key = |x: &Sexp| -> (String, usize) {
+                match x {
+                    Sexp::I(d) => ("m".to_string(), *d as usize),
+                    _ => (x.as_list()[0].as_str().to_string(), x.as_list()[1].as_int() as usize),
+                }
+            };
+            let depths: Vec<usize> = l[1..].iter().map(|x| key(x).1).collect();
             if api == Api::V && depths.len() != 1 {
                 panic!("HARNESS: v takes one key");
             }
-            let ids = depths.iter().map(|d| format!("m{}", d)).collect();
+            let ids: Vec<String> = l[1..].iter().map(|x| format!("{}{}", key(x).0, key(x).1)).collect();
             Req { api, depths, ids }
         })
         .collect()
@@ -203,7 +220,7 @@ fn seen_of(req: &Req, errors: &[LocalizationError], result: Option<&Sexp>) -> Se
         let kpos = req.depths.iter().position(|d| d == dmax).unwrap();
         let id = &req.ids[kpos];
         // keys with the same id report once each per visited bundle: keep one report per visit
-        let m = req.depths.iter().filter(|d| *d == dmax).count();
+        let m = req.ids.iter().filter(|i| *i == id).count();
         let mut k = 0;
         for e in errors {
             if let LocalizationError::MissingMessage { id: eid, locale: Some(l) } = e {
@@ -224,6 +241,24 @@ fn seen_of(req: &Req, errors: &[LocalizationError], result: Option<&Sexp>) -> Se
         }
     }
     list(out)
+}
+
+/// harness self-check: every answered e<d> / g<d> key must have been reported with a resolver error
+/// (otherwise the resources do not exercise what they are meant to)
+fn resolver_errors_ok(req: &Req, errors: &[LocalizationError], result: Option<&Sexp>) -> bool {
+    let rs = match result {
+        Some(Sexp::L(rs)) => rs,
+        _ => return true,
+    };
+    req.ids.iter().enumerate().all(|(k, id)| {
+        let answered = matches!(rs.get(k), Some(Sexp::L(r)) if r.len() == 2 && r[0].is_sym("some"));
+        let wants = id.starts_with('e') || id.starts_with('g');
+        let reported = errors.iter().any(|e| matches!(e, LocalizationError::Resolver { id: eid, .. } if eid == id));
+        !wants || !answered || reported
+    }) && errors.iter().all(|e| match e {
+        LocalizationError::Resolver { id, .. } => id.starts_with('e') || id.starts_with('g'),
+        _ => true,
+    })
 }
 
 type BoxFut<'a> = Pin<Box<dyn Future<Output = Sexp> + 'a>>;
@@ -340,6 +375,9 @@ fn run_async(b: &Bundles<Gen>, sh: &Sh, reqs: &[Req], sched: &[Sexp]) -> Sexp {
             ])
         })
         .collect();
+    if (0..n).any(|c| !resolver_errors_ok(&reqs[c], &errors[c], results[c].as_ref())) {
+        return list(vec![sym("HARNESS-SETUP"), atom("resolver-error keys were not reported as such")]);
+    }
     list(vec![list(outs), list(douts), list(fin)])
 }
 
@@ -354,6 +392,9 @@ fn run_sync(b: &Bundles<Gen>, sh: &Sh, reqs: &[Req]) -> Sexp {
             Api::Ms => list(b.format_messages_sync(&keys, &mut errors).expect("HARNESS: sync mode").into_iter().map(enc_message).collect()),
         };
         let seen = seen_of(req, &errors, Some(&r));
+        if !resolver_errors_ok(req, &errors, Some(&r)) {
+            return list(vec![sym("HARNESS-SETUP"), atom("resolver-error keys were not reported as such")]);
+        }
         let s = sh.borrow();
         outs.push(list(vec![sym("req"), r, int(s.polls as i64), int(s.yielded as i64), seen]));
     }
